@@ -16,6 +16,7 @@ import (
 	"math/rand/v2"
 	"net/netip"
 	"net/url"
+	"os"
 	"strings"
 	"sync/atomic"
 	"testing"
@@ -55,13 +56,20 @@ type ruleSpec struct {
 }
 
 type devCfg struct {
-	ID        string     `json:"id"`
-	Linked    netip.Addr `json:"linked_ip"`
-	Dedicated netip.Addr `json:"dedicated_ip"`
+	ID string `json:"id"`
+	// FilteringOff: protection is paused on the device (agd.Device.FilteringEnabled = false).
+	FilteringOff bool       `json:"filtering_disabled,omitempty"`
+	Linked       netip.Addr `json:"linked_ip"`
+	Dedicated    netip.Addr `json:"dedicated_ip"`
 }
 
 type profCfg struct {
-	ID          string         `json:"id"`
+	ID string `json:"id"`
+	// FilteringOff: protection is paused on the profile (agd.Profile.FilteringEnabled = false).
+	// The access settings are not a filter: the verdict must not depend on it.
+	FilteringOff bool `json:"filtering_disabled,omitempty"`
+	// Shape: the settings were reduced to one kind of list (delivery phase).
+	Shape       string         `json:"single_kind_of_list,omitempty"`
 	Empty       bool           `json:"empty_access"` // access.EmptyProfile
 	AllowedNets []netip.Prefix `json:"allowed_nets"`
 	BlockedNets []netip.Prefix `json:"blocked_nets"`
@@ -496,6 +504,14 @@ func genConfig(rng *rand.Rand, idx int) *config {
 		p.Devices = append(p.Devices, devCfg{ID: fmt.Sprintf("p%dded", pi),
 			Dedicated: netip.AddrFrom4([4]byte{192, 0, 2, byte(64 + dedCtr)})})
 	}
+	// the "filtering paused" switches of profiles and devices
+	for pi := range c.Profiles {
+		p := &c.Profiles[pi]
+		p.FilteringOff = rng.IntN(5) == 0
+		for di := range p.Devices {
+			p.Devices[di].FilteringOff = rng.IntN(5) == 0
+		}
+	}
 	return c
 }
 
@@ -756,7 +772,7 @@ func buildEnv(c *config, dbOverride profiledb.Interface) (*env, error) {
 		devs := []*agd.Device{}
 		for _, d := range p.Devices {
 			ad := &agd.Device{ID: agd.DeviceID(d.ID), Auth: &agd.AuthSettings{PasswordHash: agdpasswd.AllowAuthenticator{}},
-				FilteringEnabled: true, LinkedIP: d.Linked}
+				FilteringEnabled: !d.FilteringOff, LinkedIP: d.Linked}
 			if d.Dedicated.IsValid() {
 				ad.DedicatedIPs = []netip.Addr{d.Dedicated}
 			}
@@ -764,7 +780,7 @@ func buildEnv(c *config, dbOverride profiledb.Interface) (*env, error) {
 		}
 		ap := &agd.Profile{ID: agd.ProfileID(p.ID), FilterConfig: clientFilterConf(), Access: acc,
 			BlockingMode: &dnsmsg.BlockingModeNullIP{}, Ratelimiter: agd.GlobalRatelimiter{},
-			FilteringEnabled: true, QueryLogEnabled: true, IPLogEnabled: true}
+			FilteringEnabled: !p.FilteringOff, QueryLogEnabled: true, IPLogEnabled: true}
 		e.profs = append(e.profs, ap)
 		db.Add(ap, devs...)
 	}
@@ -1250,6 +1266,7 @@ func TestCheck(t *testing.T) {
 	r.Assume("an IPv4-mapped IPv6 client address is the IPv4 address (netutil.NetAddrToAddrPort documents this normalisation); the client's ASN is the ASN of the longest matching prefix of the GeoIP fake; no location => no ASN rule applies")
 	r.Assume("'no response at all' is observed at the handler boundary: nothing passed to ResponseWriter.WriteMsg and a nil error (dnsserver answers SERVFAIL when the handler returns an error)")
 	r.Assume("'not cached' is observed as: the first identical request from a client that no rule rejects, after a blocked request for a question never asked before in this stack, reaches the upstream exactly once")
+	r.Assume("the access settings are not a filter: FilteringEnabled=false on the profile and / or the matched device (protection paused) is part of the configuration matrix and the model ignores it")
 	r.Assume("consulting the global rate limiter for a blocked request is recorded (bucket) but not judged: the statement does not order access control and rate limiting")
 
 	nCfg := r.N(300, 15000)
@@ -1281,7 +1298,11 @@ func TestCheck(t *testing.T) {
 		malformedPhase(r, e, rng, &msgID)
 		settingsRoundTrip(r, e, attributed, &msgID)
 	}
-	deliveryPhase(r, sampled, &attrMismatch)
+	scratch := os.Getenv("VERIF_SCRATCH")
+	if scratch == "" {
+		scratch = t.TempDir()
+	}
+	deliveryPhase(r, scratch, sampled, &attrMismatch)
 	if attrMismatch > 0 {
 		r.Inconclusive(fmt.Sprintf("%d requests were attributed differently from what the harness intended (see bucket attribution_mismatch): the model judged them with the wrong profile", attrMismatch))
 	}
@@ -1306,6 +1327,10 @@ func TestCheck(t *testing.T) {
 	r.Require("cache_hits_on_passed", 100)
 	r.Require("ecs_option_probes", 800)
 	r.Require("globally_blocked_profiledb_observed", 1500)
+	for _, ft := range []string{"profile-filtering-off", "device-filtering-off", "profile-and-device-filtering-off"} {
+		r.Require("profile_rejected_with_"+ft, 25)
+		r.Require("passed_with_"+ft, 50)
+	}
 	r.Require("config_compared_before-serving", 400)
 	r.Require("config_compared_with_rules_after-serving", 200)
 	r.Require("profiles_rebuilt", 400)
@@ -1365,10 +1390,40 @@ func checkProbe(r *vkit.Run, e *env, p *probe, msgID *uint16, sampled map[string
 			return
 		}
 	}
+	defer func(old string) { e.keySuffix = old }(e.keySuffix)
 	if e.tagKey != nil {
 		// phase-specific refinement of the violation keys of this request
-		defer func(old string) { e.keySuffix = old }(e.keySuffix)
 		e.keySuffix += e.tagKey(p, v)
+	}
+	if p.Prof >= 0 {
+		// the "filtering paused" switches are part of the input class
+		pOff, dOff := c.Profiles[p.Prof].FilteringOff, false
+		for _, d := range c.Profiles[p.Prof].Devices {
+			if d.ID == p.Dev {
+				dOff = d.FilteringOff
+			}
+		}
+		ft := ""
+		switch {
+		case pOff && dOff:
+			ft = "profile-and-device-filtering-off"
+		case pOff:
+			ft = "profile-filtering-off"
+		case dOff:
+			ft = "device-filtering-off"
+		}
+		if ft != "" {
+			rejectedByProfile := !v.GNet && !v.GName && v.Blocked
+			if rejectedByProfile {
+				// one key tag for the three variants (the witness and the
+				// buckets tell them apart), only where the switch matters
+				e.keySuffix += ":filtering-off"
+				w.Note += " [" + ft + "]"
+				e.bkt(r, "profile_rejected_with_"+ft, 1)
+			} else if !v.Blocked {
+				e.bkt(r, "passed_with_"+ft, 1)
+			}
+		}
 	}
 
 	// evidence accounting
